@@ -52,10 +52,15 @@ func Main(pre *dev.Dev) {
 		fail(3, "usage: %s c06|c09|hist in.json out.json", os.Args[0])
 	}
 	mode, in, out := os.Args[1], os.Args[2], os.Args[3]
-	if pre != nil {
-		// self-check of the pre-init seam: the library must have captured the device
+	if pre != nil && mode != "hist" {
+		// The pre-init device became crypto/rand.Reader before bip39 was initialised
+		// (presim's dependencies are a subset of crypto/rand's plus import-free
+		// packages, and its path sorts first). If the library's source is not that
+		// device, the tree under test does not start from crypto/rand.Reader: that
+		// is C07's business (hist mode reports it); the fault-enumeration modes just
+		// cannot use the hook-free seam on such a tree.
 		if current() != io.Reader(pre) {
-			fail(3, "SEAM-FAILED: bip39 did not capture the pre-init device (package init order)")
+			fail(4, "SEAM-UNAVAILABLE: the library's source is not the value crypto/rand.Reader had before its initialisation")
 		}
 	}
 	install := func() *dev.Dev {
